@@ -73,7 +73,12 @@ func (e *Env) badMAC(r *rand.Rand, seg uint16, ts uint32, exp uint8, in, eg uint
 // A wish for both at once (which needs a MAC whose first two bytes are zero) is read as "valid under
 // the accumulator that will be in force": upd[k] says whether this router folds hop k's MAC prefix
 // into SegID before verifying it.
-func (e *Env) issue(r *rand.Rand, ts uint32, hops []path.HopField, wish []AHop, upd []bool) uint16 {
+//
+// prev: the info field of the previous segment (nil for the first): an invalid first hop field of a
+// segment is, one time in three, one that would be valid under the PREVIOUS segment's SegID and
+// timestamp (a router that keeps a stale info field after a cross-over accepts it).
+func (e *Env) issue(r *rand.Rand, ts uint32, hops []path.HopField, wish []AHop, upd []bool,
+	prev *path.InfoField) uint16 {
 	want := append([]AHop(nil), wish...)
 	for k := range want {
 		if want[k].Vp && want[k].Vu {
@@ -113,6 +118,13 @@ func (e *Env) issue(r *rand.Rand, ts uint32, hops []path.HopField, wish []AHop, 
 			}
 		default:
 			h.Mac = e.badMAC(r, seg, ts, h.ExpTime, h.ConsIngress, h.ConsEgress)
+			if k == 0 && prev != nil && r.Intn(3) == 0 {
+				m := e.mac6(prev.SegID, prev.Timestamp, h.ExpTime, h.ConsIngress, h.ConsEgress)
+				if m != e.mac6(seg, ts, h.ExpTime, h.ConsIngress, h.ConsEgress) &&
+					m != e.mac6(seg^binary.BigEndian.Uint16(m[:2]), ts, h.ExpTime, h.ConsIngress, h.ConsEgress) {
+					h.Mac = m
+				}
+			}
 		}
 	}
 	return seg
@@ -227,7 +239,11 @@ func (e *Env) Build(a *APkt, o BuildOpts, now time.Time) ([]byte, error) {
 				upd[j] = k+j == a.Hf && !a.Infos[i].Cons && viaExt && !(a.Infos[a.Inf].Peer && len(a.Seg) == 2 &&
 					(a.Hf == a.Seg[0]-1 || a.Hf == a.Seg[0]))
 			}
-			seg := e.issue(r, ts, hops, a.Hops[k:k+n], upd)
+			var prev *path.InfoField
+			if i > 0 {
+				prev = &d.InfoFields[i-1]
+			}
+			seg := e.issue(r, ts, hops, a.Hops[k:k+n], upd, prev)
 			d.InfoFields = append(d.InfoFields, path.InfoField{ConsDir: a.Infos[i].Cons, Peer: a.Infos[i].Peer,
 				SegID: seg, Timestamp: ts})
 			d.HopFields = append(d.HopFields, hops...)
